@@ -23,8 +23,8 @@ Proof. exact dec_hdr_spec. Qed.
 Print Assumptions C01_header_lossless.
 
 (* per leaf kind: whatever the decoder accepts is reproduced from the decoded value and the captured
-   reserved bytes -- nothing but the reserved bytes is lost (leaf_guard = the versions for which the
-   separately written decoder and encoder agree; the other versions are the _refuted witnesses below) *)
+   reserved bytes -- nothing but the reserved bytes is lost (leaf_guard excludes only the trun whose
+   data offset is present and zero, which Encode refuses: C01_trun_refuted) *)
 Theorem C01_leaf_lossless_ftyp : leaf_lossless dec_ftyp. Proof. exact lossless_ftyp. Qed.
 Print Assumptions C01_leaf_lossless_ftyp.
 Theorem C01_leaf_lossless_free : leaf_lossless dec_free. Proof. exact lossless_free. Qed.
@@ -64,13 +64,15 @@ Proof. exact tree_lossless. Qed.
 Print Assumptions C01_tree.
 
 (* --- what the guards exclude is really lost (witnesses replayed on the Go code by the check) --- *)
-Theorem C01_leaf_mvhd_refuted : exists bs t, decode bs = Ok (t, []) /\ encode_w t = Err /\ encode_sw t = Err.
-Proof. exact mvhd_v2_refuted. Qed.
-Print Assumptions C01_leaf_mvhd_refuted.
+(* witnesses of the version >= 2 defect of mvhd / tkhd (decode on version==1, encode on Version==0, Size on
+   Version==1: "overflow in SliceWriter"), refuted before the repairs 5633466 / 1982f88, now fixed points *)
+Theorem C01_leaf_mvhd_v2_fixed : exists t, decode w_mvhd_v2 = Ok (t, []) /\ encode_w t = Ok w_mvhd_v2 /\ encode_sw t = Ok w_mvhd_v2.
+Proof. exact mvhd_v2_fixed. Qed.
+Print Assumptions C01_leaf_mvhd_v2_fixed.
 
-Theorem C01_leaf_tkhd_refuted : exists bs t, decode bs = Ok (t, []) /\ encode_w t = Err /\ encode_sw t = Err.
-Proof. exact tkhd_v2_refuted. Qed.
-Print Assumptions C01_leaf_tkhd_refuted.
+Theorem C01_leaf_tkhd_v2_fixed : exists t, decode w_tkhd_v2 = Ok (t, []) /\ encode_w t = Ok w_tkhd_v2 /\ encode_sw t = Ok w_tkhd_v2.
+Proof. exact tkhd_v2_fixed. Qed.
+Print Assumptions C01_leaf_tkhd_v2_fixed.
 
 Theorem C01_trun_refuted : exists bs t, decode bs = Ok (t, []) /\ encode_w t = Err.
 Proof. exact trun_offset0_refuted. Qed.
